@@ -211,6 +211,15 @@ theorem mem_pySetSlice_sub (c : List Nat) (i j : Option Int) (xs : List Nat) (y 
   · exact Or.inr h
   · exact Or.inl (List.mem_of_mem_drop h)
 
+theorem mem_pyDelItem_sub (c : List Nat) (i : Int) (y : Nat) (h : y ∈ pyDelItem c i) : y ∈ c := by
+  unfold pyDelItem at h
+  split at h
+  · exact (List.eraseIdx_sublist _ _).subset h
+  · exact h
+
+theorem mem_pyPop_sub (c : List Nat) (i : Option Int) (y : Nat) (h : y ∈ pyPop c i) : y ∈ c :=
+  mem_pyDelItem_sub c _ y h
+
 /-- `make_set` of a value without equal-but-distinct elements reaches every element -/
 theorem mem_foldl_rawAdd_local (key : Nat → Nat) (xs : List Nat) : ∀ (c0 : List Nat) (y : Nat),
     (∀ a ∈ c0 ++ xs, ∀ b ∈ c0 ++ xs, key a = key b → a = b) →
@@ -423,6 +432,33 @@ theorem stepC_rel (key : Nat → Nat) (Q : Quirks) (isSet : Bool) (m s : CState)
       rcases mem_foldl_rawAdd_sub key isSet xs mc y hy with hy | hy
       · exact List.mem_append_left _ (hin y hy)
       · exact List.mem_append_right _ hy
+  | remove x =>
+    simp only [stepC, specStepC, pyRemove]
+    exact ⟨rfl, hcalls, fun y hy => hin y (List.eraseP_sublist.subset hy),
+      fun hl => (hkd hl).sublist List.eraseP_sublist⟩
+  | discard x =>
+    simp only [stepC, specStepC, pyRemove]
+    exact ⟨rfl, hcalls, fun y hy => hin y (List.eraseP_sublist.subset hy),
+      fun hl => (hkd hl).sublist List.eraseP_sublist⟩
+  | pop i =>
+    have hl : isSet = false := by simpa [COp.applicable] using happ
+    simp only [stepC, specStepC]
+    exact ⟨rfl, hcalls, fun y hy => hin y (mem_pyDelItem_sub _ _ _ hy), fun h' => by rw [hl] at h'; cases h'⟩
+  | delitem i =>
+    have hl : isSet = false := by simpa [COp.applicable] using happ
+    simp only [stepC, specStepC]
+    exact ⟨rfl, hcalls, fun y hy => hin y (mem_pyDelItem_sub _ _ _ hy), fun h' => by rw [hl] at h'; cases h'⟩
+  | delslice i j =>
+    have hl : isSet = false := by simpa [COp.applicable] using happ
+    simp only [stepC, specStepC]
+    refine ⟨rfl, hcalls, ?_, fun h' => by rw [hl] at h'; cases h'⟩
+    intro y hy
+    rcases mem_pySetSlice_sub _ _ _ _ _ hy with hy | hy
+    · exact hin y hy
+    · cases hy
+  | clear =>
+    simp only [stepC, specStepC]
+    exact ⟨rfl, hcalls, fun y hy => (by cases hy), fun _ => kd_nil key⟩
 
 /-- **C16_general.** For every quirk setting and every notion of value equality `key`: every sequence of write
 operations that stays outside the triggers of the quirks that are on leaves the field with the contents Python
